@@ -24,6 +24,8 @@ def run(F, X, rep):
     # a generation-conditional recovery write can only succeed if it carries the generation that was observed
     # together with the Pending record (the image model assumes it does)
     S.s7_generation_guard(C, rep, "C09-G")
+    # reading the image back must not itself fail or misreport on an image an interrupted run can leave
+    S.w4_fetch_mapping(C, rep, "C09-F")
     # lifecycle side of the recovery protocol
     R.s4_mark_failed_guards(C, rep, "C09-L")
     R.a2_pending_pay_only_after_none(C, rep, "C09-L")
